@@ -255,7 +255,7 @@ func runC10(c *Ctx) {
 					// step = up3(size of the header at cur)
 					sp := z.Of(b.Y).String()
 					hdrOK := false
-					if strings.HasPrefix(sp, "up3(") {
+					if _, isUp := matchUp(3, z.Of(b.Y)); isUp {
 						// the size that is rounded is the size field of the tag header at the cursor
 						hdrOK = valueReads(b.Y, tagSizeF, cur)
 					}
